@@ -45,19 +45,30 @@ type KV struct {
 	Lit *string `json:"lit,omitempty"` // string literal
 	Var string  `json:"var,omitempty"` // variable reference, evaluated in the caller's scope
 	Int *int    `json:"int,omitempty"`
+	Nil bool    `json:"nil,omitempty"` // the literal nil: the key is bound, to nothing
 }
 
 type Lay struct {
+	Pre  string `json:"pre,omitempty"`
 	Ext  string `json:"ext"`
 	Body []Item `json:"body"`
+}
+
+// Re (partial): the SAME partial name is called a second time right after the first call, with another data map
+// written in the call, optionally after a let in the caller's scope: partial(n, d1) ~ [let x = "v"] partial(n, d2).
+type Re struct {
+	Data []KV   `json:"data,omitempty"`
+	LetN string `json:"let_n,omitempty"`
+	LetV string `json:"let_v,omitempty"`
 }
 
 // Item kinds: text | emit | tick | for | if | let | partial | cfor | cof | blk | yield
 type Item struct {
 	K    string `json:"k"`
-	N    string `json:"n,omitempty"` // emit: variable; for: list; if: condition; let: name; cfor/cof: content name
-	V    string `json:"v,omitempty"` // for: loop variable; let: literal value
-	T    string `json:"t,omitempty"` // text
+	N    string `json:"n,omitempty"`   // emit: variable; for: list; if: condition; let: name; cfor/cof: content name
+	V    string `json:"v,omitempty"`   // for: loop variable; let: literal value; blk: helper variant ("" twice never with arg)
+	T    string `json:"t,omitempty"`   // text; blk variant arg: the label argument
+	Pre  string `json:"pre,omitempty"` // partial: directory part / prefix of the name
 	Ext  string `json:"ext,omitempty"`
 	Data []KV   `json:"data,omitempty"`
 	Body []Item `json:"body,omitempty"`
@@ -67,7 +78,12 @@ type Item struct {
 	// Held (partial): the data map, layout entry included, is first bound to a variable and the partial is then called
 	// TWICE with that variable: partial(name, held) ~ partial(name, held). Each call is what the call with a fresh
 	// literal map is.
+	// Held (cof): likewise contentOf(name, held) ~ contentOf(name, held).
 	Held bool `json:"held,omitempty"`
+	Re   *Re  `json:"re,omitempty"`
+	// Alt: the other tag opener. partial / cof / blk: a silent tag <% ... %> (evaluated exactly once, nothing is
+	// inserted); cfor: an output tag <%= contentFor(..) { %> (must still emit nothing).
+	Alt bool `json:"alt,omitempty"`
 }
 
 type Texts struct {
@@ -82,14 +98,21 @@ type Case struct {
 	CT      string             `json:"content_type"` // "" = contentType not set
 	Strings map[string]vk.Text `json:"strings"`      // g0 g1 g2 s0 s1
 	SL      []vk.Text          `json:"sl"`
-	Main    []Item             `json:"main"`
-	Texts   *Texts             `json:"texts,omitempty"` // derived, informational (recomputed on replay)
+	Big     int                `json:"big,omitempty"` // length of the list "bl" (many sibling compositions)
+	// Cached: the composed template is rendered TWICE (fresh data each time) with plush.CacheEnabled switched on, so that
+	// the second render runs on the parsed templates the first one left in the cache (main and every partial); both
+	// must equal the inline render. Only in sequential phases (the switch is a global of plush).
+	Cached bool   `json:"cached,omitempty"`
+	Main   []Item `json:"main"`
+	Texts  *Texts `json:"texts,omitempty"` // derived, informational (recomputed on replay)
 }
 
 var (
-	nameRE = regexp.MustCompile(`^[a-z][a-z0-9_]{0,11}$`)
-	extRE  = regexp.MustCompile(`^(|\.[a-z]{1,4})$`)
-	litRE  = regexp.MustCompile(`^[^"\\@\x00]*$`)
+	nameRE  = regexp.MustCompile(`^[a-z][a-z0-9_]{0,11}$`)
+	cnameRE = regexp.MustCompile(`^[A-Za-z0-9_ :.]{0,14}$`) // content names: any spelling a string literal takes
+	extRE   = regexp.MustCompile(`^(\.[a-z]{1,4}){0,2}$`)
+	preRE   = regexp.MustCompile(`^([A-Za-z0-9_.]{1,8}/){0,2}_?$`)
+	litRE   = regexp.MustCompile(`^[^"\\@\x00]*$`)
 )
 
 func validItems(items []Item, depth int) error {
@@ -102,7 +125,11 @@ func validItems(items []Item, depth int) error {
 			if strings.Contains(it.T, "@@") {
 				return fmt.Errorf("text contains the placeholder marker")
 			}
-		case "emit", "for", "if", "cfor", "cof":
+		case "cfor", "cof":
+			if !cnameRE.MatchString(it.N) {
+				return fmt.Errorf("bad content name %q", it.N)
+			}
+		case "emit", "for", "if":
 			if !nameRE.MatchString(it.N) {
 				return fmt.Errorf("bad name %q", it.N)
 			}
@@ -117,28 +144,62 @@ func validItems(items []Item, depth int) error {
 			if !extRE.MatchString(it.Ext) || (it.Lay != nil && !extRE.MatchString(it.Lay.Ext)) {
 				return fmt.Errorf("bad extension")
 			}
+			if !preRE.MatchString(it.Pre) || (it.Lay != nil && !preRE.MatchString(it.Lay.Pre)) {
+				return fmt.Errorf("bad name prefix")
+			}
+			if it.Re != nil {
+				if it.Held {
+					return fmt.Errorf("held and re exclude each other")
+				}
+				if it.Re.LetN != "" && (!nameRE.MatchString(it.Re.LetN) || !litRE.MatchString(it.Re.LetV)) {
+					return fmt.Errorf("bad let between the calls")
+				}
+				if err := validData(it.Re.Data); err != nil {
+					return err
+				}
+			}
 			if it.Lay != nil {
 				if err := validItems(it.Lay.Body, depth+1); err != nil {
 					return err
 				}
 			}
-		case "tick", "blk", "yield":
+		case "blk":
+			switch it.V {
+			case "", "twice", "never", "with":
+			case "arg":
+				if !litRE.MatchString(it.T) || strings.Contains(it.T, "<%") {
+					return fmt.Errorf("bad label")
+				}
+			default:
+				return fmt.Errorf("unknown block helper variant %q", it.V)
+			}
+		case "tick", "yield":
 		default:
 			return fmt.Errorf("unknown item kind %q", it.K)
 		}
-		for _, kv := range it.Data {
-			if !nameRE.MatchString(kv.K) || (kv.Var != "" && !nameRE.MatchString(kv.Var)) || (kv.Lit != nil && !litRE.MatchString(*kv.Lit)) {
-				return fmt.Errorf("bad data entry %q", kv.K)
-			}
-			if kv.K == "layout" || kv.K == "yield" || kv.K == "contentType" || kv.K == "partialFeeder" {
-				return fmt.Errorf("reserved data key %q", kv.K)
-			}
+		if it.Held && it.Alt {
+			return fmt.Errorf("held and alt exclude each other")
+		}
+		if err := validData(it.Data); err != nil {
+			return err
 		}
 		if err := validItems(it.Body, depth+1); err != nil {
 			return err
 		}
 		if err := validItems(it.Else, depth+1); err != nil {
 			return err
+		}
+	}
+	return nil
+}
+
+func validData(kvs []KV) error {
+	for _, kv := range kvs {
+		if !nameRE.MatchString(kv.K) || (kv.Var != "" && !nameRE.MatchString(kv.Var)) || (kv.Lit != nil && !litRE.MatchString(*kv.Lit)) {
+			return fmt.Errorf("bad data entry %q", kv.K)
+		}
+		if kv.K == "layout" || kv.K == "yield" || kv.K == "contentType" || kv.K == "partialFeeder" {
+			return fmt.Errorf("reserved data key %q", kv.K)
 		}
 	}
 	return nil
@@ -154,6 +215,8 @@ func dataLit(kvs []KV, layout string) string {
 			parts = append(parts, kv.K+`: "`+*kv.Lit+`"`)
 		case kv.Int != nil:
 			parts = append(parts, kv.K+": "+strconv.Itoa(*kv.Int))
+		case kv.Nil:
+			parts = append(parts, kv.K+": nil")
 		default:
 			parts = append(parts, kv.K+": "+kv.Var)
 		}
@@ -201,7 +264,41 @@ func common(it Item, sub func([]Item) string) (string, bool) {
 type realPrinter struct {
 	parts map[string]string
 	n     int
+	nc    int
 }
+
+// opener returns the tag opener of a composition: an output tag, or a silent tag when Alt is set.
+func opener(it Item) string {
+	if it.Alt {
+		return "<% "
+	}
+	return "<%= "
+}
+
+var blkHelper = map[string]string{"": "rec", "twice": "rec2", "never": "rec0", "with": "recw", "arg": "reca"}
+
+func blkCall(it Item) string {
+	switch it.V {
+	case "with":
+		return "recw(" + dataLit(it.Data, "") + ")"
+	case "arg":
+		return `reca("` + it.T + `")`
+	}
+	return blkHelper[it.V] + "()"
+}
+
+// blkTimes: how often the helper variant renders its block.
+func blkTimes(v string) int {
+	switch v {
+	case "twice":
+		return 2
+	case "never":
+		return 0
+	}
+	return 1
+}
+
+func letText(n, v string) string { return `<% let ` + n + ` = "` + v + `" %>` }
 
 func (p *realPrinter) doc(items []Item) string {
 	var sb strings.Builder
@@ -215,10 +312,10 @@ func (p *realPrinter) doc(items []Item) string {
 			sb.WriteString("<%= yield %>")
 		case "partial":
 			p.n++
-			name := fmt.Sprintf("p%d%s", p.n, it.Ext)
+			name := fmt.Sprintf("%sp%d%s", it.Pre, p.n, it.Ext)
 			lname := ""
 			if it.Lay != nil {
-				lname = fmt.Sprintf("l%d%s", p.n, it.Lay.Ext)
+				lname = fmt.Sprintf("%sl%d%s", it.Lay.Pre, p.n, it.Lay.Ext)
 			}
 			p.parts[name] = p.doc(it.Body)
 			if it.Lay != nil {
@@ -233,27 +330,56 @@ func (p *realPrinter) doc(items []Item) string {
 				sb.WriteString("<% let " + hv + " = " + d + " %><%= partial(\"" + name + "\", " + hv + ") %>~<%= partial(\"" + name + "\", " + hv + ") %>")
 				continue
 			}
-			sb.WriteString("<%= partial(" + callArgs(`"`+name+`"`, dataLit(it.Data, lname)) + ") %>")
-		case "cfor":
-			sb.WriteString(`<% contentFor("` + it.N + `") { %>` + p.doc(it.Body) + "<% } %>")
-		case "cof":
-			sb.WriteString("<%= contentOf(" + callArgs(`"`+it.N+`"`, dataLit(it.Data, "")) + ")")
-			if it.Def {
-				sb.WriteString(" { %>" + p.doc(it.Body) + "<% }")
+			sb.WriteString(opener(it) + "partial(" + callArgs(`"`+name+`"`, dataLit(it.Data, lname)) + ") %>")
+			if it.Re != nil {
+				sb.WriteString("~")
+				if it.Re.LetN != "" {
+					sb.WriteString(letText(it.Re.LetN, it.Re.LetV))
+				}
+				sb.WriteString(opener(it) + "partial(" + callArgs(`"`+name+`"`, dataLit(it.Re.Data, lname)) + ") %>")
 			}
-			sb.WriteString(" %>")
+		case "cfor":
+			o := "<% "
+			if it.Alt {
+				o = "<%= "
+			}
+			sb.WriteString(o + `contentFor("` + it.N + `") { %>` + p.doc(it.Body) + "<% } %>")
+		case "cof":
+			call := func(data string) {
+				sb.WriteString(opener(it) + "contentOf(" + callArgs(`"`+it.N+`"`, data) + ")")
+				if it.Def {
+					sb.WriteString(" { %>" + p.doc(it.Body) + "<% }")
+				}
+				sb.WriteString(" %>")
+			}
+			if it.Held {
+				p.nc++
+				d := dataLit(it.Data, "")
+				if d == "" {
+					d = "{}"
+				}
+				hv := fmt.Sprintf("heldc%d", p.nc)
+				sb.WriteString("<% let " + hv + " = " + d + " %>")
+				call(hv)
+				sb.WriteString("~")
+				call(hv)
+				continue
+			}
+			call(dataLit(it.Data, ""))
 		case "blk":
-			sb.WriteString("<%= rec() { %>" + p.doc(it.Body) + "<% } %>")
+			sb.WriteString(opener(it) + blkCall(it) + " { %>" + p.doc(it.Body) + "<% } %>")
 		}
 	}
 	return sb.String()
 }
 
 type spec struct {
-	kind string // partial | cof | cofdef | blk
-	text string
-	ext  string
-	lay  *spec
+	kind  string // partial | cof | cofdef | blk
+	text  string
+	ext   string
+	lay   *spec
+	times int    // blk: how often the helper renders its block
+	label string // blk: what the helper writes before the block's text
 }
 
 type defs map[string]*Item
@@ -305,38 +431,59 @@ func (p *splicePrinter) doc(items []Item, d defs) string {
 				sp.lay = &spec{kind: "layout", ext: it.Lay.Ext, text: p.doc(it.Lay.Body, d)}
 				lname = "layout" + it.Lay.Ext // only the presence of the key matters to the oracle
 			}
-			sb.WriteString("<%= xsplice(" + callArgs(strconv.Itoa(id), dataLit(it.Data, lname)) + ") %>")
-			if it.Held {
-				// the second call: the same composition once more, with the same (fresh) data
+			sb.WriteString(opener(it) + "xsplice(" + callArgs(strconv.Itoa(id), dataLit(it.Data, lname)) + ") %>")
+			if it.Held || it.Re != nil {
+				// the second call: the same composition once more, with the same (fresh) data (held), or
+				// with the data of the second call, after the let that stands between the calls (re)
+				data2 := it.Data
+				sb.WriteString("~")
+				if it.Re != nil {
+					data2 = it.Re.Data
+					if it.Re.LetN != "" {
+						sb.WriteString(letText(it.Re.LetN, it.Re.LetV))
+					}
+				}
 				sp2 := &spec{kind: "partial", ext: it.Ext}
 				id2 := p.add(sp2)
 				sp2.text = p.doc(it.Body, d)
 				if it.Lay != nil {
 					sp2.lay = &spec{kind: "layout", ext: it.Lay.Ext, text: p.doc(it.Lay.Body, d)}
 				}
-				sb.WriteString("~<%= xsplice(" + callArgs(strconv.Itoa(id2), dataLit(it.Data, lname)) + ") %>")
+				sb.WriteString(opener(it) + "xsplice(" + callArgs(strconv.Itoa(id2), dataLit(data2, lname)) + ") %>")
 			}
 		case "cfor":
 			d = d.with(it.N, &items[i])
 		case "cof":
-			if def := d[it.N]; def != nil {
-				sp := &spec{kind: "cof"}
-				id := p.add(sp)
-				sp.text = p.doc(def.Body, d)
-				sb.WriteString("<%= xsplice(" + callArgs(strconv.Itoa(id), dataLit(it.Data, "")) + ") %>")
-			} else if it.Def {
-				sp := &spec{kind: "cofdef"}
-				id := p.add(sp)
-				sp.text = p.doc(it.Body, d)
-				sb.WriteString("<%= xsplice(" + callArgs(strconv.Itoa(id), dataLit(it.Data, "")) + ") %>")
-			} else {
-				sb.WriteString("<%= xfail(" + dataLit(it.Data, "") + ") %>")
+			calls := 1
+			if it.Held {
+				calls = 2 // each call is what the call with a fresh literal map is
+			}
+			for k := 0; k < calls; k++ {
+				if k > 0 {
+					sb.WriteString("~")
+				}
+				if def := d[it.N]; def != nil {
+					sp := &spec{kind: "cof"}
+					id := p.add(sp)
+					sp.text = p.doc(def.Body, d)
+					sb.WriteString(opener(it) + "xsplice(" + callArgs(strconv.Itoa(id), dataLit(it.Data, "")) + ") %>")
+				} else if it.Def {
+					sp := &spec{kind: "cofdef"}
+					id := p.add(sp)
+					sp.text = p.doc(it.Body, d)
+					sb.WriteString(opener(it) + "xsplice(" + callArgs(strconv.Itoa(id), dataLit(it.Data, "")) + ") %>")
+				} else {
+					sb.WriteString(opener(it) + "xfail(" + dataLit(it.Data, "") + ") %>")
+				}
 			}
 		case "blk":
-			sp := &spec{kind: "blk"}
+			sp := &spec{kind: "blk", times: blkTimes(it.V)}
+			if it.V == "arg" {
+				sp.label = it.T + ":"
+			}
 			id := p.add(sp)
 			sp.text = p.doc(it.Body, d)
-			sb.WriteString("<%= xsplice(" + strconv.Itoa(id) + ") %>")
+			sb.WriteString(opener(it) + "xsplice(" + callArgs(strconv.Itoa(id), dataLit(it.Data, "")) + ") %>")
 		}
 	}
 	return sb.String()
@@ -367,29 +514,56 @@ func (p *textPrinter) doc(items []Item, d defs, yield string) string {
 				body = p.doc(it.Lay.Body, d, body)
 			}
 			sb.WriteString(body)
-			if it.Held {
+			if it.Held || it.Re != nil {
 				sb.WriteString("~" + body)
 			}
 		case "cfor":
 			d = d.with(it.N, &items[i])
 		case "cof":
+			var one string
 			if def := d[it.N]; def != nil {
-				sb.WriteString(p.doc(def.Body, d, ""))
+				one = p.doc(def.Body, d, "")
 			} else if it.Def {
-				sb.WriteString(p.doc(it.Body, d, yield))
+				one = p.doc(it.Body, d, yield)
 			} else {
-				sb.WriteString("<%= xfail() %>")
+				one = "<%= xfail() %>"
+			}
+			sb.WriteString(one)
+			if it.Held {
+				sb.WriteString("~" + one)
 			}
 		case "blk":
-			sb.WriteString("[" + p.doc(it.Body, d, yield) + "]")
+			body := p.doc(it.Body, d, yield)
+			label := ""
+			if it.V == "arg" {
+				label = it.T + ":"
+			}
+			var outs []string
+			for k := 0; k < blkTimes(it.V); k++ {
+				outs = append(outs, body)
+			}
+			sb.WriteString("[" + label + strings.Join(outs, "|") + "]")
 		}
 	}
 	return sb.String()
 }
 
-func isJS(ct string) bool { return ct == "application/javascript" || ct == "text/javascript" }
+// isJS: the media type (parameters such as "; charset=utf-8" put aside) is a JavaScript one.
+func isJS(ct string) bool {
+	mt := strings.TrimSpace(strings.SplitN(ct, ";", 2)[0])
+	return mt == "application/javascript" || mt == "text/javascript"
+}
 
-func escapes(ct, ext string) bool { return isJS(ct) && ext != ".js" && ext != "" }
+// lastExt: the extension of a file name is what follows the last dot of its last path element
+// ("p1.js.html" -> ".html"; the generated suffixes contain no slash).
+func lastExt(ext string) string {
+	if i := strings.LastIndex(ext, "."); i >= 0 {
+		return ext[i:]
+	}
+	return ""
+}
+
+func escapes(ct, ext string) bool { return isJS(ct) && lastExt(ext) != ".js" && lastExt(ext) != "" }
 
 // hasSureYield: the layout reaches a yield on every rendering (directly, inside a block helper's
 // block or in the body of a partial it calls unconditionally). Pasting the body where the yield stands evaluates it as often as the yield is reached,
@@ -397,7 +571,7 @@ func escapes(ct, ext string) bool { return isJS(ct) && ext != ".js" && ext != ""
 // in whether an error inside the body surfaces, which is no defect of the layout mechanism.
 func hasSureYield(items []Item) bool {
 	for _, it := range items {
-		if it.K == "yield" || ((it.K == "blk" || it.K == "partial") && hasSureYield(it.Body)) {
+		if it.K == "yield" || ((it.K == "blk" && it.V != "never" || it.K == "partial") && !it.Alt && hasSureYield(it.Body)) {
 			return true
 		}
 	}
@@ -408,6 +582,12 @@ func hasSureYield(items []Item) bool {
 func textualOK(ct string, items []Item) bool {
 	for _, it := range items {
 		if len(it.Data) > 0 || it.K == "let" || it.K == "tick" {
+			return false
+		}
+		if it.Alt && it.K != "cfor" {
+			return false // evaluated but not inserted: cannot be written inline
+		}
+		if it.Re != nil && (len(it.Re.Data) > 0 || it.Re.LetN != "") {
 			return false
 		}
 		if it.K == "partial" {
@@ -458,6 +638,13 @@ func baseData(c Case) map[string]interface{} {
 	}
 	m["sl"] = sl
 	m["el"] = []string{}
+	if c.Big > 0 {
+		bl := make([]string, c.Big)
+		for i := range bl {
+			bl[i] = "i" + strconv.Itoa(i)
+		}
+		m["bl"] = bl
+	}
 	m["n0"] = 42
 	m["bt"] = true
 	m["bf"] = false
@@ -522,22 +709,42 @@ func (o *oracle) xsplice(id int, data map[string]interface{}, help plush.HelperC
 	}
 	sp := o.specs[id]
 	o.kinds[sp.kind]++
-	ctx := help.New()
 	keys := make([]string, 0, len(data))
 	for k := range data {
 		keys = append(keys, k)
 	}
 	sort.Strings(keys)
-	if sp.kind == "partial" || sp.kind == "cof" { // a default block never reads the data map (not stated whether it may)
-		for _, k := range keys {
-			ctx.Set(k, data[k])
+	render := func() (string, error) {
+		ctx := help.New()
+		if sp.kind != "cofdef" { // a default block never reads the data map (not stated whether it may)
+			for _, k := range keys {
+				ctx.Set(k, data[k])
+			}
 		}
+		s, err := plush.Render(sp.text, ctx)
+		if err != nil {
+			return "", err
+		}
+		return o.resolve(s), nil
 	}
-	s, err := plush.Render(sp.text, ctx)
+	if sp.kind == "blk" {
+		// the helper renders its block sp.times times; each time it receives what the block renders to
+		outs := []string{}
+		for k := 0; k < sp.times; k++ {
+			s, err := render()
+			if err != nil {
+				return "", err
+			}
+			o.blocks = append(o.blocks, s)
+			outs = append(outs, s)
+		}
+		o.nonEmp++
+		return o.record("[" + sp.label + strings.Join(outs, "|") + "]"), nil
+	}
+	s, err := render()
 	if err != nil {
 		return "", err
 	}
-	s = o.resolve(s)
 	switch sp.kind {
 	case "partial":
 		s = o.js(s, sp.ext)
@@ -551,9 +758,6 @@ func (o *oracle) xsplice(id int, data map[string]interface{}, help plush.HelperC
 			}
 			s = o.js(o.resolve(ls), sp.lay.ext)
 		}
-	case "blk":
-		o.blocks = append(o.blocks, s)
-		s = "[" + s + "]"
 	}
 	if s != "" {
 		o.nonEmp++
@@ -583,7 +787,11 @@ func describe(c Case, b built) string {
 	for _, k := range keys {
 		fmt.Fprintf(&sb, "%s=%q ", k, string(c.Strings[k]))
 	}
-	fmt.Fprintf(&sb, "sl=%q n0=42 bt=true bf=false}", c.SL)
+	fmt.Fprintf(&sb, "sl=%q n0=42 bt=true bf=false", c.SL)
+	if c.Big > 0 {
+		fmt.Fprintf(&sb, " bl=[i0 .. i%d]", c.Big-1)
+	}
+	sb.WriteString("}")
 	return sb.String()
 }
 
@@ -623,23 +831,84 @@ func check(r *vk.Run, c Case) *vk.Fail {
 
 	// composed render
 	var recorded []string
-	rd := baseData(c)
-	rd["partialFeeder"] = func(name string) (string, error) {
-		s, ok := b.parts[name]
-		if !ok {
-			return "", fmt.Errorf("c17: no partial %q", name)
+	renderReal := func() vk.Res {
+		recorded = nil
+		rd := baseData(c)
+		rd["partialFeeder"] = func(name string) (string, error) {
+			s, ok := b.parts[name]
+			if !ok {
+				return "", fmt.Errorf("c17: no partial %q", name)
+			}
+			return s, nil
 		}
-		return s, nil
-	}
-	rd["rec"] = func(help plush.HelperContext) (template.HTML, error) {
-		s, err := help.Block()
-		if err != nil {
-			return "", err
+		rd["rec"] = func(help plush.HelperContext) (template.HTML, error) {
+			s, err := help.Block()
+			if err != nil {
+				return "", err
+			}
+			recorded = append(recorded, s)
+			return template.HTML("[" + s + "]"), nil
 		}
-		recorded = append(recorded, s)
-		return template.HTML("[" + s + "]"), nil
+		rd["rec2"] = func(help plush.HelperContext) (template.HTML, error) { // asks for its block twice
+			a, err := help.Block()
+			if err != nil {
+				return "", err
+			}
+			recorded = append(recorded, a)
+			b, err := help.Block()
+			if err != nil {
+				return "", err
+			}
+			recorded = append(recorded, b)
+			return template.HTML("[" + a + "|" + b + "]"), nil
+		}
+		rd["rec0"] = func(help plush.HelperContext) (template.HTML, error) { // has a block, never renders it
+			if !help.HasBlock() {
+				return "", fmt.Errorf("c17: rec0 called without a block")
+			}
+			return template.HTML("[]"), nil
+		}
+		rd["recw"] = func(data map[string]interface{}, help plush.HelperContext) (template.HTML, error) { // block in a child scope with data
+			ctx := help.New()
+			keys := make([]string, 0, len(data))
+			for k := range data {
+				keys = append(keys, k)
+			}
+			sort.Strings(keys)
+			for _, k := range keys {
+				ctx.Set(k, data[k])
+			}
+			s, err := help.BlockWith(ctx)
+			if err != nil {
+				return "", err
+			}
+			recorded = append(recorded, s)
+			return template.HTML("[" + s + "]"), nil
+		}
+		rd["reca"] = func(label string, help plush.HelperContext) (template.HTML, error) { // an argument before the block
+			s, err := help.Block()
+			if err != nil {
+				return "", err
+			}
+			recorded = append(recorded, s)
+			return template.HTML("[" + label + ":" + s + "]"), nil
+		}
+		return vk.Safe(func() (string, error) { return plush.Render(b.main, plush.NewContextWith(rd)) })
 	}
-	real := vk.Safe(func() (string, error) { return plush.Render(b.main, plush.NewContextWith(rd)) })
+	var real vk.Res
+	var first *vk.Res
+	if c.Cached {
+		was := plush.CacheEnabled
+		plush.CacheEnabled = true
+		f := renderReal()
+		first = &f
+		real = renderReal()
+		plush.CacheEnabled = was
+		r.Evals(1)
+		r.Class("cached: second render on the cached templates")
+	} else {
+		real = renderReal()
+	}
 
 	// inline render with the splice oracle
 	o := &oracle{c: c, specs: b.specs, kinds: map[string]int{}}
@@ -659,7 +928,7 @@ func check(r *vk.Run, c Case) *vk.Fail {
 	}
 	nt := ""
 	if len(o.tokens) > 0 && (o.nonEmp > 0 || want.Err != nil) || (len(b.specs) == 0 && want.Err != nil && strings.Contains(b.omain, "xfail")) {
-		kb, _ := json.Marshal(Case{Mode: c.Mode, CT: c.CT, Strings: c.Strings, SL: c.SL, Main: c.Main})
+		kb, _ := json.Marshal(Case{Mode: c.Mode, CT: c.CT, Strings: c.Strings, SL: c.SL, Big: c.Big, Main: c.Main})
 		nt = string(kb)
 	}
 	r.Count(nt, cls)
@@ -677,6 +946,9 @@ func check(r *vk.Run, c Case) *vk.Fail {
 
 	if want.Panicked() {
 		return fail("the inline (composition-free) render panicked: %s", want)
+	}
+	if first != nil && (first.Panicked() || (first.Err != nil) != (real.Err != nil) || first.Out != real.Out) {
+		return fail("with the template cache on, the first render gave %s, the second (on the cached templates) %s; inline render: %s", *first, real, want)
 	}
 	if real.Panicked() {
 		return fail("composed render: %s; inline render: %s", real, want)
@@ -733,6 +1005,14 @@ var payloadPool = []string{
 var exts = []string{".js", ".html", ".md", ""}
 var cts = []string{"", "text/html", "application/javascript", "text/javascript"}
 
+// wider pools of the random trees and of the name matrix: double extensions (the LAST one is the extension), names
+// with a directory part (with dots, upper case, "./", a leading underscore), content types with parameters
+var extsR = []string{".js", ".html", ".md", "", ".js.html", ".html.js"}
+var presR = []string{"", "", "", "", "sub/", "v1.2/", "Admin/_", "./", "a.js/"}
+var ctsR = []string{"", "text/html", "application/javascript", "text/javascript", "application/javascript; charset=utf-8",
+	"text/html; charset=utf-8", "text/javascript;charset=UTF-8", "text/plain"}
+var labels = []string{"L", "it's", "<b>", "a&b", ""}
+
 type scope struct {
 	names    []string // scalar names that may be emitted
 	guarded  []string // names that may be unset (contentOf data keys inside a contentFor block)
@@ -747,6 +1027,9 @@ type scope struct {
 	inBlock  bool     // somewhere below a contentFor block
 	defined  []string // content names known to be defined at this point (generation bias only)
 	hidden   []string // names that may not be read here or below (data keys of an enclosing contentOf default block)
+	// opaque: in or below a layout or a stored block. Which enclosing scopes such a document sees is not stated, so a
+	// name that is not known to be bound here is not known to be unset either: it is not read, not even guarded.
+	opaque bool
 }
 
 type G struct {
@@ -757,9 +1040,14 @@ type G struct {
 	nextDoc int
 }
 
+// newDoc returns the content names of a new document: distinct from those of every other document; not only identifiers
+// (upper case, dot, inner and outer spaces, colon; the main document has the empty name).
 func (g *G) newDoc() []string {
 	g.nextDoc++
-	return []string{fmt.Sprintf("n%d_0", g.nextDoc), fmt.Sprintf("n%d_1", g.nextDoc), fmt.Sprintf("n%d_2", g.nextDoc)}
+	if g.nextDoc == 1 {
+		return []string{"n1_0", "N1.1", ""}
+	}
+	return []string{fmt.Sprintf("n%d_0", g.nextDoc), fmt.Sprintf("N%d.1", g.nextDoc), fmt.Sprintf(" n%d: 2 ", g.nextDoc)}
 }
 
 func with(a []string, b ...string) []string {
@@ -822,12 +1110,14 @@ func (g *G) emit(sc scope) Item {
 }
 
 func (g *G) value(sc scope, label string) KV {
-	switch g.intn(5, label+"_k") {
+	switch g.intn(6, label+"_k") {
 	case 0, 1:
 		return KV{Var: g.pick(sc.names, label+"_v")}
 	case 2:
 		i := []int{0, 7, 42}[g.intn(3, label+"_i")]
 		return KV{Int: &i}
+	case 5:
+		return KV{Nil: true}
 	}
 	s := g.pick(litPool, label+"_l")
 	return KV{Lit: &s}
@@ -861,12 +1151,45 @@ func keysOf(kvs []KV) []string {
 	return out
 }
 
+// boundKeys: the keys bound to a value (a key bound to nil reads as an unset name).
+func boundKeys(kvs []KV) []string {
+	var out []string
+	for _, kv := range kvs {
+		if !kv.Nil {
+			out = append(out, kv.K)
+		}
+	}
+	return out
+}
+
+func nilKeys(kvs []KV) []string {
+	var out []string
+	for _, kv := range kvs {
+		if kv.Nil {
+			out = append(out, kv.K)
+		}
+	}
+	return out
+}
+
+func intersect(a, b []string) []string {
+	var out []string
+	for _, x := range a {
+		for _, y := range b {
+			if x == y {
+				out = append(out, x)
+			}
+		}
+	}
+	return out
+}
+
 func hasYield(items []Item) bool {
 	for _, it := range items {
 		if it.K == "yield" {
 			return true
 		}
-		if it.K != "partial" && it.K != "cfor" && (hasYield(it.Body) || hasYield(it.Else)) {
+		if it.K != "partial" && it.K != "cfor" && !(it.K == "blk" && it.V == "never") && (hasYield(it.Body) || hasYield(it.Else)) {
 			return true
 		}
 	}
@@ -879,7 +1202,10 @@ var cofKeys = []string{"c0", "c1", "s0"}
 
 func (g *G) doc(sc scope, max int) []Item {
 	n := 1 + g.intn(max, "dn")
-	var out []Item
+	if g.intn(16, "de") == 11 {
+		n = 0 // the empty document / block
+	}
+	out := []Item{}
 	var pending []string // names defined in this document that still get a use
 	for i := 0; i < n; i++ {
 		if len(pending) > 0 && g.intn(2, "pu") == 0 {
@@ -958,16 +1284,47 @@ func (g *G) item(sc *scope) []Item {
 		in.top = false
 		it := Item{K: "if", N: g.pick(conds, "ic"), Body: g.doc(in, 3)}
 		if g.intn(2, "ie") == 0 {
-			it.Else = g.doc(in, 2)
+			if it.Else = g.doc(in, 2); len(it.Else) == 0 {
+				it.Else = nil // (an empty else would not survive the JSON of a replay file)
+			}
 		}
 		return []Item{it}
 	case "blk":
 		in := *sc
 		in.nest++
 		in.top = false
-		return []Item{{K: "blk", Body: g.doc(in, 3)}}
+		it := Item{K: "blk", V: g.pick([]string{"", "", "", "twice", "never", "with", "arg"}, "bv")}
+		switch it.V {
+		case "arg":
+			it.T = g.pick(labels, "bl")
+		case "with":
+			// the helper renders its block in a child scope holding data, like contentFor does on use: below it
+			// the scope of use and the scope of definition of a stored block differ, as inside a stored block
+			keys := without(cofKeys, sc.hidden)
+			if len(keys) > 0 {
+				it.Data = g.data(*sc, keys, 2, "bd")
+			}
+			for i := range it.Data {
+				if it.Data[i].K == "s0" && it.Data[i].Nil {
+					it.Data[i] = KV{K: "s0", Var: "n0"}
+				}
+			}
+			in.inBlock = true
+			if !g.textual {
+				in.guarded = with(sc.guarded, without([]string{"c0", "c1"}, sc.hidden)...)
+			}
+		}
+		it.Alt = !g.textual && g.intn(10, "ba") == 5
+		it.Body = g.doc(in, 3)
+		return []Item{it}
 	case "let":
-		name := g.pick([]string{"g0", "g1", "g2", "f0"}, "ln")
+		pool := []string{"g0", "g1", "g2", "f0"}
+		if sc.depth == 0 && !sc.inLayout && !sc.inBlock {
+			// the main document's own scope is an ancestor of every other scope: rebinding there a name that stored
+			// blocks and layouts read is seen whichever scope they are rendered in
+			pool = append(pool, without([]string{"s0", "s1"}, sc.hidden)...)
+		}
+		name := g.pick(pool, "ln")
 		sc.names = with(sc.names, name)
 		return []Item{{K: "let", N: name, V: g.pick(litPool, "lv")}}
 	case "partial":
@@ -975,17 +1332,32 @@ func (g *G) item(sc *scope) []Item {
 	case "cfor":
 		j := g.intn(len(sc.own), "cj")
 		in := scope{names: without(stable, sc.hidden), guarded: without([]string{"c0", "c1"}, sc.hidden), depth: sc.depth, nest: sc.nest + 1,
-			own: sc.own, ownMax: j, anc: sc.anc, hidden: sc.hidden, inBlock: true, defined: sc.defined}
+			own: sc.own, ownMax: j, anc: sc.anc, hidden: sc.hidden, inBlock: true, defined: sc.defined, opaque: true}
 		if g.textual {
 			in.guarded = nil
 		}
-		it := Item{K: "cfor", N: sc.own[j], Body: g.doc(in, 3)}
+		it := Item{K: "cfor", N: sc.own[j], Body: g.doc(in, 3), Alt: g.intn(4, "ca") == 0}
 		sc.defined = with(sc.defined, sc.own[j])
 		return []Item{it}
 	case "cof":
-		return []Item{g.cof(sc, "")}
+		it := g.cof(sc, "")
+		return append([]Item{it}, g.leakSensor(sc, it)...)
 	}
 	return nil
+}
+
+// leakSensor: after a contentOf that was given data, outside of stored blocks, the caller reads one of the keys
+// (guarded): the data was added for the stored / default block only, the caller's scope does not hold it.
+func (g *G) leakSensor(sc *scope, it Item) []Item {
+	if g.textual || sc.inBlock || len(it.Data) == 0 || g.intn(2, "ls") == 0 {
+		return nil
+	}
+	keys := without(without(intersect(keysOf(it.Data), []string{"c0", "c1"}), sc.hidden), with(sc.names, sc.guarded...))
+	if len(keys) == 0 {
+		return nil
+	}
+	k := g.pick(keys, "lsk")
+	return []Item{{K: "if", N: k, Body: []Item{{K: "text", T: "LEAK:"}, {K: "emit", N: k}}}}
 }
 
 // cof generates a contentOf of the wanted name (or of a drawn one).
@@ -1022,6 +1394,17 @@ func (g *G) cof(sc *scope, want string) Item {
 			it.Data = append(it.Data, kv)
 		}
 	}
+	for i := range it.Data {
+		if it.Data[i].K == "s0" && it.Data[i].Nil { // stored blocks read s0 unguarded
+			it.Data[i] = KV{K: "s0", Var: "n0"}
+		}
+	}
+	switch g.intn(12, "oh") {
+	case 3, 4:
+		it.Held = true
+	case 7:
+		it.Alt = !g.textual
+	}
 	defP := 2
 	if !isKnown {
 		defP = 8 // mostly give an undefined name a default block, so that errors do not dominate
@@ -1041,12 +1424,49 @@ func (g *G) cof(sc *scope, want string) Item {
 }
 
 func (g *G) partial(sc *scope) []Item {
-	it := Item{K: "partial", Ext: g.pick(exts, "pe")}
+	it := Item{K: "partial", Pre: g.pick(presR, "pp"), Ext: g.pick(extsR, "pe")}
 	it.Data = g.data(*sc, partialKeys, 3, "pd")
+	// what the body may read: a key every call binds to a value is a name; a key only some call binds (or binds to
+	// nil) may be unset
+	sure, maybe := boundKeys(it.Data), nilKeys(it.Data)
+	switch g.intn(8, "ph") {
+	case 0, 1:
+		it.Held = true
+	case 2, 3:
+		it.Re = &Re{Data: g.data(*sc, partialKeys, 3, "rd")}
+		if sc.top && !g.textual && g.intn(2, "rl") == 0 {
+			pool := []string{"g0", "g1", "g2"}
+			if sc.depth == 0 && !sc.inLayout && !sc.inBlock {
+				pool = append(pool, without([]string{"s0", "s1"}, sc.hidden)...)
+			}
+			it.Re.LetN, it.Re.LetV = g.pick(pool, "rln"), g.pick(litPool, "rlv")
+		}
+		both := intersect(sure, boundKeys(it.Re.Data))
+		maybe = without(with(with(maybe, sure...), keysOf(it.Re.Data)...), both)
+		sure = both
+	}
+	// (a g* key that is not bound by every call is still a name of the caller; f* keys and names the caller does not have are not)
+	callerHas := func(k string) bool {
+		for _, n := range sc.names {
+			if n == k {
+				return true
+			}
+		}
+		return false
+	}
+	var unsure []string
+	for _, k := range maybe {
+		if !callerHas(k) || len(intersect([]string{k}, with(nilKeys(it.Data), nilKeysRe(it.Re)...))) > 0 {
+			unsure = append(unsure, k)
+		}
+	}
 	visible := append(append([]string{}, sc.own[:sc.ownMax]...), sc.anc...)
 	own := g.newDoc()
-	body := scope{names: with(sc.names, keysOf(it.Data)...), guarded: without(sc.guarded, keysOf(it.Data)), depth: sc.depth + 1, top: true,
-		own: own, ownMax: len(own), anc: visible, yield: sc.yield, hidden: sc.hidden, inBlock: sc.inBlock, defined: sc.defined}
+	body := scope{names: without(with(sc.names, sure...), unsure), guarded: with(without(sc.guarded, sure), unsure...), depth: sc.depth + 1, top: true,
+		own: own, ownMax: len(own), anc: visible, yield: sc.yield, hidden: sc.hidden, inBlock: sc.inBlock, defined: sc.defined, opaque: sc.opaque}
+	if sc.opaque {
+		body.guarded = without(sc.guarded, with(sure, unsure...))
+	}
 	it.Body = g.doc(body, 4)
 	layP := 3
 	if sc.inLayout {
@@ -1056,15 +1476,20 @@ func (g *G) partial(sc *scope) []Item {
 		lown := g.newDoc()
 		// which scope a layout sees beyond the caller's is not stated: it reads only names nobody rebinds
 		ls := scope{names: without(stable, sc.hidden), depth: sc.depth + 1, top: true, own: lown, ownMax: len(lown), anc: visible, yield: true,
-			inLayout: true, hidden: sc.hidden, inBlock: sc.inBlock, defined: sc.defined}
+			inLayout: true, hidden: sc.hidden, inBlock: sc.inBlock, defined: sc.defined, opaque: true}
 		lb := g.doc(ls, 4)
 		if !hasYield(lb) || (g.textual && !hasSureYield(lb)) {
 			pos := g.intn(len(lb)+1, "py")
 			lb = append(lb[:pos:pos], append([]Item{{K: "yield"}}, lb[pos:]...)...)
 		}
-		it.Lay = &Lay{Ext: g.pick(exts, "le"), Body: lb}
+		it.Lay = &Lay{Pre: g.pick(presR, "lp"), Ext: g.pick(extsR, "le"), Body: lb}
 	}
-	it.Held = g.intn(4, "held") == 0
+	if !it.Held && !g.textual && g.intn(12, "pa") == 5 {
+		it.Alt = true
+	}
+	if it.Re != nil && it.Re.LetN != "" {
+		sc.names = with(sc.names, it.Re.LetN)
+	}
 	out := []Item{it}
 	// sensor: a name the partial may have rebound is emitted by the caller afterwards
 	if g.intn(2, "ps") == 0 {
@@ -1081,6 +1506,13 @@ func (g *G) partial(sc *scope) []Item {
 	return out
 }
 
+func nilKeysRe(re *Re) []string {
+	if re == nil {
+		return nil
+	}
+	return nilKeys(re.Data)
+}
+
 func payload(t *rapid.T, label string) vk.Text {
 	if rapid.IntRange(0, 2).Draw(t, label+"_k") == 0 {
 		return vk.Text(strings.ReplaceAll(gen.Payload(t, label), "@", "a"))
@@ -1093,7 +1525,7 @@ func genCase(t *rapid.T, textual bool) Case {
 	if textual {
 		c.Mode = "textual"
 	}
-	c.CT = rapid.SampledFrom(cts).Draw(t, "ct")
+	c.CT = rapid.SampledFrom(ctsR).Draw(t, "ct")
 	for _, k := range []string{"g0", "g1", "g2", "s0", "s1"} {
 		c.Strings[k] = payload(t, k)
 	}
@@ -1140,6 +1572,12 @@ var fixedBodies = []cell{
 	{"let", []Item{{K: "let", N: "g0", V: "re<bound"}, em("g0"), {K: "let", N: "g2", V: "also"}}},
 	{"block", []Item{{K: "blk", Body: []Item{tx("'b'"), em("g0"), {K: "tick"}}}, {K: "tick"}}},
 	{"depth3", []Item{part(".md", tx("2'"), part(".html", tx("3'"), em("g0"), part("", tx("4'"))))}},
+	// one call site executed once per element, the data taken from the loop variable
+	{"inloop", []Item{{K: "for", N: "sl", V: "v1", Body: []Item{
+		{K: "partial", Ext: ".html", Data: []KV{ref("f1", "v1")}, Body: []Item{tx("<"), em("f1"), em("v1"), em("g0"), tx(">")}}}}}},
+	// one partial name called twice with different data maps and a let of the caller in between
+	{"re", []Item{{K: "partial", Ext: ".html", Data: []KV{lit("g0", "one'")}, Re: &Re{Data: []KV{lit("f1", "two<")}, LetN: "g2", LetV: "re'let"},
+		Body: []Item{tx("("), em("g0"), {K: "if", N: "f1", Body: []Item{em("f1")}}, em("g2"), {K: "let", N: "f1", V: "own"}, tx(")")}}}},
 }
 
 func fixedData(i int) []KV {
@@ -1206,6 +1644,8 @@ func stripTicks(items []Item) []Item {
 // block uses the first, and the never defined "zz")
 var c0guard = Item{K: "if", N: "c0", Body: []Item{tx("{"), em("c0"), tx("}")}}
 
+var heldOf = Item{K: "cof", N: "n1_0", Data: []KV{lit("c0", "held'")}, Held: true}
+
 var contentOps = []cell{
 	{"def a", []Item{{K: "cfor", N: "n1_0", Body: []Item{tx("<A1 '>"), em("s0"), c0guard, {K: "tick"}}}}},
 	{"redef a", []Item{{K: "cfor", N: "n1_0", Body: []Item{tx("<A2>"), {K: "for", N: "sl", V: "v9", Body: []Item{em("v9"), c0guard}}}}}},
@@ -1219,6 +1659,12 @@ var contentOps = []cell{
 	{"of b", []Item{tx("7:"), {K: "cof", N: "n1_1", Data: []KV{lit("c0", "b<")}}}},
 	{"of a in loop", []Item{{K: "for", N: "sl", V: "v8", Body: []Item{{K: "cof", N: "n1_0", Data: []KV{ref("c0", "v8")}}}}}},
 	{"of a in partial", []Item{part(".html", tx("P:"), Item{K: "cof", N: "n1_0", Data: []KV{lit("c0", "p")}})}},
+	// (round 5) the caller reads a data key after the uses; a data map held in a variable and used by two contentOf calls;
+	// a name the stored blocks read is rebound in the defining scope between definition and use; contentFor in an output tag
+	{"leak sensor", []Item{c0guard}},
+	{"of a held", []Item{tx("8:"), heldOf}},
+	{"let s0", []Item{{K: "let", N: "s0", V: "re'bound"}}},
+	{"def a out", []Item{{K: "cfor", N: "n1_0", Alt: true, Body: []Item{tx("<A3>"), em("s0"), c0guard}}}},
 }
 
 func contentCase(ops []int, placement int) Case {
@@ -1234,7 +1680,7 @@ func contentCase(ops []int, placement int) Case {
 	case 2: // inside a block helper's block the uses, definitions before it
 		var defsI, uses []Item
 		for _, it := range seq {
-			if it.K == "cfor" {
+			if it.K == "cfor" || it.K == "let" { // (a let inside the block: whether a block helper's block has a scope of its own is not stated)
 				defsI = append(defsI, it)
 			} else {
 				uses = append(uses, it)
@@ -1243,6 +1689,112 @@ func contentCase(ops []int, placement int) Case {
 		main = append(defsI, Item{K: "blk", Body: uses})
 	}
 	return Case{Mode: "splice", CT: "text/html", Strings: fixedStrings, SL: fixedSL, Main: main}
+}
+
+// nameCase: one partial (with or without layout) whose names are spelled in the given shapes.
+func nameCase(ct, pre, ext string, lay int) Case {
+	p := Item{K: "partial", Pre: pre, Ext: ext, Data: fixedData(1), Body: []Item{tx("<b>'x' & \"y\"</b>\n"), em("g0")}}
+	switch lay {
+	case 1:
+		p.Lay = &Lay{Ext: ".html", Body: []Item{tx("<L '>"), {K: "yield"}, tx("</L>")}}
+	case 2:
+		p.Lay = &Lay{Pre: "v1.2/", Ext: "", Body: []Item{tx("<L '>"), {K: "yield"}, tx("</L>")}}
+	case 3:
+		p.Lay = &Lay{Pre: "Admin/_", Ext: ".js.html", Body: []Item{tx("<L '>"), {K: "yield"}, tx("</L>")}}
+	case 4:
+		p.Lay = &Lay{Pre: "./", Ext: ".html.js", Body: []Item{tx("<L '>"), {K: "yield"}, tx("</L>")}}
+	}
+	return Case{Mode: "splice", CT: ct, Strings: fixedStrings, SL: fixedSL, Main: []Item{tx("A'"), p, tx("B")}}
+}
+
+var presE = []string{"", "sub/", "v1.2/", "Admin/_", "./", "a.js/"}
+var ctsNames = []string{"", "text/html; charset=utf-8", "application/javascript", "text/javascript; charset=utf-8", "text/javascript;charset=UTF-8", "text/plain"}
+
+// blkCase: every block helper variant x tag opener x block body x place of the call.
+var blkVariants = []string{"", "twice", "never", "with", "arg"}
+
+func blkCase(variant string, alt bool, body, place int) Case {
+	b := Item{K: "blk", V: variant, Alt: alt}
+	switch variant {
+	case "with":
+		b.Data = []KV{lit("c0", "w'<"), ref("c1", "g1")}
+	case "arg":
+		b.T = "it's <L>"
+	}
+	switch body {
+	case 0:
+		b.Body = []Item{tx("'b'"), {K: "tick"}}
+	case 1:
+		b.Body = []Item{em("g0"), c0guard, {K: "tick"}}
+	case 2:
+		b.Body = []Item{part(".html", tx("P"), em("g0"), Item{K: "tick"}), {K: "blk", V: "twice", Body: []Item{tx("i"), {K: "tick"}}}}
+	case 3:
+		b.Body = []Item{}
+	}
+	main := []Item{tx("A"), {K: "tick"}, b, tx("B"), {K: "tick"}, c0guard}
+	switch place {
+	case 1:
+		main = []Item{{K: "for", N: "sl", V: "v1", Body: []Item{em("v1"), b}}, {K: "tick"}}
+	case 2:
+		main = []Item{tx("["), part(".html", tx("P("), b, tx(")")), tx("]"), {K: "tick"}}
+	case 3:
+		main = []Item{{K: "cfor", N: "n1_0", Body: []Item{tx("<S>"), b}}, {K: "cof", N: "n1_0"}, tx("~"), {K: "cof", N: "n1_0", Data: []KV{lit("c0", "of"), lit("c1", "of1"), lit("s0", "ofs")}}, {K: "tick"}}
+	}
+	return Case{Mode: "splice", CT: "text/html", Strings: fixedStrings, SL: fixedSL, Main: main}
+}
+
+// boundaryCases: empty bodies, blocks and layouts that are nothing but the yield, nil in a data map, odd content names.
+func boundaryCases() []Case {
+	mk := func(ct string, main ...Item) Case {
+		return Case{Mode: "splice", CT: ct, Strings: fixedStrings, SL: fixedSL, Main: main}
+	}
+	empty := Item{K: "partial", Ext: ".html", Body: []Item{}}
+	emptyLay := Item{K: "partial", Ext: ".html", Body: []Item{}, Lay: &Lay{Ext: ".html", Body: []Item{{K: "yield"}}}}
+	onlyYield := Item{K: "partial", Ext: ".html", Body: []Item{tx("'b'")}, Lay: &Lay{Ext: ".html", Body: []Item{{K: "yield"}}}}
+	twoYields := Item{K: "partial", Ext: ".html", Body: []Item{tx("'b'"), {K: "tick"}}, Lay: &Lay{Ext: ".html", Body: []Item{{K: "yield"}, tx("|"), {K: "yield"}}}}
+	nilData := Item{K: "partial", Ext: ".html", Data: []KV{{K: "g0", Nil: true}, {K: "f0", Nil: true}},
+		Body: []Item{{K: "if", N: "g0", Body: []Item{tx("G")}}, {K: "if", N: "f0", Body: []Item{tx("F")}}, em("g1")}}
+	nilRead := Item{K: "partial", Ext: ".html", Data: []KV{{K: "g0", Nil: true}}, Body: []Item{em("g0")}}
+	silent := Item{K: "partial", Ext: ".html", Alt: true, Body: []Item{tx("'s'"), {K: "tick"}}}
+	var out []Case
+	for _, ct := range []string{"text/html", "application/javascript"} {
+		out = append(out,
+			mk(ct, tx("["), empty, tx("]")), mk(ct, tx("["), emptyLay, tx("]")), mk(ct, tx("["), onlyYield, tx("]")), mk(ct, tx("["), twoYields, tx("]"), Item{K: "tick"}),
+			mk(ct, nilData, em("g0")), mk(ct, nilRead), mk(ct, tx("["), silent, tx("]"), Item{K: "tick"}),
+			mk(ct), mk(ct, empty),
+			mk(ct, Item{K: "cfor", N: "n1_0", Body: []Item{}}, tx("["), Item{K: "cof", N: "n1_0"}, tx("]")),
+			mk(ct, tx("["), Item{K: "cof", N: "zz", Def: true, Body: []Item{}}, tx("]")),
+			mk(ct, tx("["), Item{K: "cof", N: "zz", Alt: true}, tx("]")),
+			mk(ct, Item{K: "cfor", N: "n1_0", Body: []Item{tx("S"), {K: "tick"}}}, tx("["), Item{K: "cof", N: "n1_0", Alt: true}, tx("]"), Item{K: "tick"}),
+		)
+		for _, n := range []string{"", " ", "N1.1", " n1: 2 ", "contentFor:n1_0", "a b"} {
+			other := "n1_0"
+			out = append(out, mk(ct, Item{K: "cfor", N: n, Body: []Item{tx("<N>"), em("s0")}}, Item{K: "cfor", N: other, Body: []Item{tx("<O>")}},
+				tx("1:"), Item{K: "cof", N: n}, tx("2:"), Item{K: "cof", N: other}, tx("3:"), Item{K: "cof", N: strings.TrimSpace(n) + "x", Def: true, Body: []Item{tx("dflt")}}))
+			if strings.TrimSpace(n) != n {
+				out = append(out, mk(ct, Item{K: "cfor", N: n, Body: []Item{tx("<N>")}}, tx("1:"), Item{K: "cof", N: strings.TrimSpace(n), Def: true, Body: []Item{tx("dflt")}}))
+			}
+		}
+	}
+	return out
+}
+
+// bigCase: one call site executed c.Big times (more sibling compositions than any nesting bound of the engine).
+func bigCase(kind int, held bool) Case {
+	c := Case{Mode: "splice", CT: "text/html", Strings: fixedStrings, SL: fixedSL, Big: 1100}
+	p := Item{K: "partial", Ext: ".html", Data: []KV{ref("g0", "v7")}, Held: held, Body: []Item{em("g0"), tx(",")}}
+	switch kind {
+	case 0:
+		c.Main = []Item{{K: "for", N: "bl", V: "v7", Body: []Item{p}}, em("g0")}
+	case 1:
+		c.Main = []Item{{K: "cfor", N: "n1_0", Body: []Item{c0guard}}, {K: "for", N: "bl", V: "v7", Body: []Item{{K: "cof", N: "n1_0", Data: []KV{ref("c0", "v7")}, Held: held}}}}
+	case 2:
+		c.Main = []Item{{K: "for", N: "bl", V: "v7", Body: []Item{{K: "blk", Body: []Item{em("v7")}}}}}
+	case 3:
+		p.Lay = &Lay{Ext: ".html", Body: []Item{tx("("), {K: "yield"}, tx(")")}}
+		c.Main = []Item{tx("["), part(".html", Item{K: "for", N: "bl", V: "v7", Body: []Item{p}}), tx("]")}
+	}
+	return c
 }
 
 // ---- the test --------------------------------------------------------------------
@@ -1261,6 +1813,9 @@ func setup(t *testing.T) *vk.Run {
 		}
 		if err := validItems(c.Main, 0); err != nil {
 			return &vk.Fail{Kind: "decode", Msg: "bad case: " + err.Error()}
+		}
+		if c.Big < 0 || c.Big > 5000 {
+			return &vk.Fail{Kind: "decode", Msg: "bad length of the big list"}
 		}
 		for _, v := range c.Strings {
 			if strings.Contains(string(v), "@@") {
@@ -1283,7 +1838,7 @@ func TestProp(t *testing.T) {
 	r.ReplayCommitted()
 
 	// (E) configuration matrix
-	ctsE := append([]string{}, cts...)
+	ctsE := append(append([]string{}, cts...), "application/javascript; charset=utf-8")
 	nb, nd := len(fixedBodies), 4
 	type lm struct {
 		mode int
@@ -1330,6 +1885,45 @@ func TestProp(t *testing.T) {
 	}
 	r.Subspace("config matrix, data-free part, textual inlining", nt, true)
 
+	// (E) spellings of partial and layout names x content types with parameters
+	nNames := int64(len(ctsNames) * len(presE) * len(extsR) * 5)
+	r.Subspace(fmt.Sprintf("names: %d content types x %d directory parts x %d extensions (single, double, none) x 5 layout spellings", len(ctsNames), len(presE), len(extsR)), nNames, true)
+	r.Parallel(nNames, 0, func(i int64) {
+		lay := int(i % 5)
+		i /= 5
+		e := extsR[i%int64(len(extsR))]
+		i /= int64(len(extsR))
+		pre := presE[i%int64(len(presE))]
+		i /= int64(len(presE))
+		r.Check(check(r, nameCase(ctsNames[i], pre, e, lay)))
+	})
+
+	// (E) block helper variants
+	nBlk := int64(len(blkVariants) * 2 * 4 * 4)
+	r.Subspace(fmt.Sprintf("block helpers: %d variants (once, twice, never, in a child scope with data, with an argument) x {output, silent tag} x 4 bodies x 4 places", len(blkVariants)), nBlk, true)
+	r.Parallel(nBlk, 0, func(i int64) {
+		place := int(i % 4)
+		i /= 4
+		body := int(i % 4)
+		i /= 4
+		alt := i%2 == 1
+		i /= 2
+		r.Check(check(r, blkCase(blkVariants[i], alt, body, place)))
+	})
+
+	// (E) boundaries and many siblings
+	bcs := boundaryCases()
+	for k := 0; k < 4; k++ {
+		bcs = append(bcs, bigCase(k, false))
+		if k != 2 {
+			bcs = append(bcs, bigCase(k, true))
+		}
+	}
+	r.Subspace("boundaries: empty bodies / blocks / documents, yield-only layouts, nil in data maps, silent tags, content names that are no identifiers; one call site executed 1100 times (partial, contentOf, block helper, laid-out partial inside a partial)", int64(len(bcs)), true)
+	r.Parallel(int64(len(bcs)), 0, func(i int64) {
+		r.Check(check(r, bcs[i]))
+	})
+
 	// (E) content operation sequences
 	maxLen := r.Pick(3, 4)
 	nops := int64(len(contentOps))
@@ -1358,6 +1952,12 @@ func TestProp(t *testing.T) {
 	})
 	r.Rapid("textual", r.Pick(6000, 30000), func(t *rapid.T) *vk.Fail {
 		return check(r, genCase(t, true))
+	})
+	// the same trees, each rendered twice with the template cache on (state kept in parsed templates or per process)
+	r.Rapid("cached", r.Pick(2500, 12000), func(t *rapid.T) *vk.Fail {
+		c := genCase(t, false)
+		c.Cached = true
+		return check(r, c)
 	})
 }
 
